@@ -17,10 +17,10 @@ pub struct Inner<T, D> { dims: Dims, stride: u32, data: D, _pd: PhantomData<T> }
 /// linear index of cell (x, y) for a given row pitch
 pub open spec fn idx(stride: u32, x: u32, y: u32) -> int { y as int * stride as int + x as int }
 
-/// the backing data can hold a w x h view with the given pitch
+/// the backing data can hold the cells of a w x h view with the given pitch (an empty view has no cells)
 pub open spec fn fits(w: u32, h: u32, stride: u32, len: int) -> bool {
     &&& w <= stride
-    &&& (h > 0 ==> (h - 1) * stride + w <= len)
+    &&& (w > 0 && h > 0 ==> (h - 1) * stride + w <= len)
 }
 
 impl<T, D> Inner<T, D> {
@@ -48,7 +48,7 @@ impl<T, D> Inner<T, D> {
                 r.is_some() ==> idx(self.stride, x, y) < (self.dims.1 - 1) * self.stride + self.dims.0,
     //@end
 
-    //@obligation props=C11 pair=buf_resolve_bounds_small :: resolve_bounds rejects unless l<=r<=w and t<=b<=h; otherwise dims' = (r-l, b-t), the linear range starts at cell (l,t) and spans exactly (b-t-1)*stride + (r-l) elements (or the empty case), and ends inside the parent's extent
+    //@obligation props=C11 pair=buf_resolve_bounds_small :: resolve_bounds rejects unless l<=r<=w and t<=b<=h; otherwise dims' = (r-l, b-t); for a non-empty rectangle the linear range starts at cell (l,t), spans exactly (b-t-1)*stride + (r-l) elements and ends inside the parent's extent; for an empty rectangle the range is empty; in every case it ends inside the extent the data is known to hold
     #[verifier::nonlinear]
     //@extract core/src/util/buf.rs :: impl<T, D> Inner<T, D> { :: resolve_bounds ret=res
         requires self.wf_geom(),
@@ -59,12 +59,13 @@ impl<T, D> Inner<T, D> {
             let b = if rect.bottom is Some { rect.bottom.unwrap() } else { self.dims.1 };
             &&& l <= r <= self.dims.0 && t <= b <= self.dims.1
             &&& res.0.0 == r - l && res.0.1 == b - t
-            &&& res.1.start as int == idx(self.stride, l, t)
             &&& res.1.start <= res.1.end
-            &&& (b > t ==> res.1.end as int - res.1.start as int == (b - t - 1) * self.stride as int + (r - l))
-            &&& (b == t ==> res.1.end as int - res.1.start as int == (r - l))
-            &&& (b > t ==> res.1.end as int <= (self.dims.1 - 1) * self.stride + self.dims.0)
-            // the range never reaches beyond the extent the data is known to hold, empty rectangles included
+            // a non-empty rectangle: the range starts at cell (l,t), spans the rows up to the end of the last one, inside the parent's extent
+            &&& (b > t && r > l ==> res.1.start as int == idx(self.stride, l, t))
+            &&& (b > t && r > l ==> res.1.end as int - res.1.start as int == (b - t - 1) * self.stride as int + (r - l))
+            &&& (b > t && r > l ==> res.1.end as int <= (self.dims.1 - 1) * self.stride + self.dims.0)
+            // an empty rectangle has no cells: the range is empty and never reaches beyond the data
+            &&& (b == t || r == l ==> res.1.start == res.1.end)
             &&& (self.dims.1 > 0 ==> res.1.end as int <= (self.dims.1 - 1) * self.stride + self.dims.0)
             &&& (self.dims.1 == 0 ==> res.1.end == 0)
         }),
@@ -118,7 +119,7 @@ pub proof fn lemma_slice_cell(stride: u32, l: u32, t: u32, x: u32, y: u32)
 //@obligation props=C11 :: sub-view well-formedness: a rectangle accepted by resolve_bounds inside a view that fits its data yields a sub-view that fits the sub-range handed to it (so the constructor accepts it and every in-bounds cell of the sub-view lies inside the sub-range)
 pub proof fn lemma_subview_fits(w: u32, h: u32, stride: u32, l: u32, t: u32, r: u32, b: u32)
     requires w <= stride, l <= r <= w, t <= b <= h,
-    ensures fits((r - l) as u32, (b - t) as u32, stride, if b > t { (b - t - 1) * stride + (r - l) } else { (r - l) as int }),
+    ensures fits((r - l) as u32, (b - t) as u32, stride, if b > t && r > l { (b - t - 1) * stride + (r - l) } else { 0 }),
             b > t ==> idx(stride, l, t) + (b - t - 1) * stride + (r - l) <= (h - 1) * stride + w,
 {
     if b > t {
